@@ -93,9 +93,15 @@ RouterStep(T, as, r, scope, inif, sibfrom, down, p0) ==
   IF ~inf0.p /\ singleton THEN Discard(p0)
   ELSE IF p0.ci # InfIdx(p0, p0.ch) THEN Discard(p0)
   ELSE IF PeerBad(p0) THEN Discard(p0)
-  ELSE IF hop0.x THEN Slow(4, 52, p0, 0)
+  ELSE
+  \* updateNonConsDirIngressSegID comes first (since /repo 9f23998: every SCMP error must leave with
+  \* the ingress-side update done, prepareSCMP relies on it)
+  LET sid1 == IF ~inf0.c /\ inif # 0 /\ ~peering THEN Upd(inf0.sid, hop0.sig) ELSE inf0.sid
+      p1 == [p0 EXCEPT !.infos[p0.ci + 1].sid = sid1]
+  IN
+  IF hop0.x THEN Slow(4, 52, p1, 0)
   ELSE IF inif # 0 /\ inif # (IF inf0.c THEN hop0.in ELSE hop0.eg)
-       THEN Slow(4, IF inf0.c THEN 49 ELSE 50, p0, 0)
+       THEN Slow(4, IF inf0.c THEN 49 ELSE 50, p1, 0)
   ELSE
   LET \* validateTransitUnderlaySrc
       useprev == ~peering /\ IsFirstHopAfterXover(p0)
@@ -103,22 +109,19 @@ RouterStep(T, as, r, scope, inif, sibfrom, down, p0) ==
       phop == IF useprev THEN p0.hops[p0.ch] ELSE hop0
       pktIngress == IF pinf.c THEN phop.in ELSE phop.eg
       transitOK == IF IsFirstHop(p0) \/ inif # 0 THEN TRUE
-                   ELSE IF pktIngress = 0 THEN scope = "int"
+                   ELSE IF pktIngress = 0 THEN FALSE      \* since /repo 407d70e (was: scope = "int")
                    ELSE IF ~HasIf(T, as, pktIngress) THEN FALSE
                    ELSE LET e == EndOf(T, as, pktIngress) IN
                         e.r # r /\ scope = "sib" /\ e.r = sibfrom
       srcLocal == p0.src = as
       dstLocal == p0.dst = as
   IN
-  IF ~transitOK THEN Discard(p0)
-  ELSE IF inif = 0 /\ IsFirstHop(p0) /\ ~srcLocal THEN Slow(4, 33, p0, 0)
-  ELSE IF inif = 0 /\ dstLocal THEN Slow(4, 34, p0, 0)
-  ELSE IF inif # 0 /\ srcLocal THEN Slow(4, 33, p0, 0)
-  ELSE IF inif # 0 /\ IsLastHop(p0) # dstLocal THEN Slow(4, 34, p0, 0)
+  IF ~transitOK THEN Discard(p1)
+  ELSE IF inif = 0 /\ IsFirstHop(p0) /\ ~srcLocal THEN Slow(4, 33, p1, 0)
+  ELSE IF inif = 0 /\ dstLocal THEN Slow(4, 34, p1, 0)
+  ELSE IF inif # 0 /\ srcLocal THEN Slow(4, 33, p1, 0)
+  ELSE IF inif # 0 /\ IsLastHop(p0) # dstLocal THEN Slow(4, 34, p1, 0)
   ELSE
-  LET sid1 == IF ~inf0.c /\ inif # 0 /\ ~peering THEN Upd(inf0.sid, hop0.sig) ELSE inf0.sid
-      p1 == [p0 EXCEPT !.infos[p0.ci + 1].sid = sid1]
-  IN
   IF ~MacOK(as, hop0, sid1) THEN Slow(4, 51, p1, 0)
   ELSE IF inif # 0 /\ (IF inf0.c THEN hop0.ia ELSE hop0.ea) THEN Slow(-1, 0, p1, 0)
   ELSE IF dstLocal THEN Fwd("int", 0, p1)
